@@ -694,8 +694,16 @@ def run(ctx: Context) -> None:
                     kinds |= {'b'}
             promoted = any('numpy.floating' in t for t in texts) and {'i', 'u'} <= kinds
             keeps_fill = any("'_FillValue' in" in t and not pol for t, pol in g)
-            ok = fill_only and promoted and keeps_fill
-            why = f"del encoding['dtype'] under {sorted(texts)}"
+            # ... and under nothing else: a further conjunct leaves some promoted variable with its integer type on disk
+            def _expl(t_, pol_):
+                if pol_:
+                    return (t_ in ("join == 'outer'", "missing_points == 'fill'") or 'numpy.floating' in t_ or '.kind in' in t_ or 'numpy.integer' in t_ or 'numpy.bool_' in t_
+                            or ('dtype' in t_ and 'is not None' in t_) or ("'dtype' in" in t_))
+                return ("'_FillValue' in" in t_ or "'missing_value' in" in t_ or ('dtype' in t_ and 'is None' in t_)
+                        or (".get('_FillValue') is not None" in t_) or (".get('missing_value') is not None" in t_))
+            extra_ = sorted(t_ for t_, pol_ in g if not _expl(t_, pol_))
+            ok = fill_only and promoted and keeps_fill and not extra_
+            why = f"del encoding['dtype'] under {sorted(texts)}" + (f"; further conditions {extra_[:2]}" if extra_ else '')
         ctx.check('R05.3', ok, "with 'fill', variables promoted to floating point to hold the misses do not keep an integer on-disk dtype without a fill value (saving would turn the missing values into numbers)", ed2,
                   dels[0] if dels else ed2.node, construct=f"extract_dataframe: {why}")
         ctx.check('R05.3', ok and 'b' in kinds, "the same holds for boolean variables: a kept encoding['dtype'] = bool saves the missing value of a missed point as True", ed2,
@@ -761,6 +769,7 @@ from ..variants import V  # noqa: E402
 _B = 'src/emsarray/conventions/_base.py'
 _P = 'src/emsarray/operations/point_extraction.py'
 VARIANTS = [
+    V('C05', 'promoted-kept-only-with-missing-value', 'src/emsarray/operations/point_extraction.py', "                and 'missing_value' not in variable.encoding\n", "                and 'missing_value' in variable.encoding\n", 'R05.3'),
     V('C05', 'custom-point-dimension-discarded', 'src/emsarray/conventions/_base.py', "        if point_dimension is None:\n            point_dimension = utils.find_unused_dimension(self.dataset, 'point')", "        if point_dimension is not None:\n            point_dimension = utils.find_unused_dimension(self.dataset, 'point')", 'R05.9'),
     V('C05', 'select-points-policy-not-forwarded', 'src/emsarray/conventions/_base.py', "self.dataset, points, point_dimension=point_dimension, missing_points=missing_points)", "self.dataset, points, point_dimension=point_dimension)", 'R05.9'),
     V('C05', 'filled-integers-keep-dtype', 'src/emsarray/operations/point_extraction.py', "                del variable.encoding['dtype']", "                pass", 'R05.3'),
